@@ -5,6 +5,10 @@ HERE = os.path.dirname(os.path.dirname(os.path.abspath(__file__)))
 
 # id -> (technique, level text, level note, design section)
 CHECKS = {
+ "C02": ("deviation-bounded exhaustive enumeration of valid documents; input and first output compared as canonical token lists of the reference interpreter's trees; exhaustive uninterpreted IF_DATA token sequences; limit literals per integer width",
+         "Every document of the grammar corpus, every value class at every scalar parameter, 7 comment shapes at every gap, reversed RECORD_LAYOUT positions, all token sequences of length <= 3 (thorough 4) over a 15-token alphabet inside uninterpreted IF_DATA (with and without leading tag), A2ML-described IF_DATA; every integer parameter x 9..12 literals at and beyond its limits. Oracle: same significant tokens in the same order modulo number/escape notation and the documented reordering; block-level comments kept; an out-of-range literal is rejected, diagnosed or preserved - never silently changed.",
+         "fractions inside uninterpreted IF_DATA are compared at f32 precision (the library stores them as f32); comments outside blocks with optional sub-elements may be dropped (statement)",
+         "DESIGN.md 5/C02"),
  "C01": ("deviation-bounded exhaustive enumeration of documents (grammar derivations x layout x value classes x IF_DATA modes), each run through load/write/load/write on the real code with a byte-fixpoint oracle",
          "All carrier documents of the grammar with every optional slot (once, twice, pairs), every enum item, each also with CRLF; 7 whitespace and 7 comment shapes at every token gap of every carrier (all pairs on selected documents); every value class at every scalar parameter (integers per width/notation, 28 float notations, all strings over 17 escape units up to length k, identifier shapes); IF_DATA with/without A2ML and built-in spec. For each accepted input: reload succeeds, models equal, second write byte-identical (third cycle classifies drift). Exhaustive for <= 1 deviation per document (2 on selected documents).",
          "inputs the loader rejects are outside the quantifier; API-built models are covered by the builder sweep only for the kinds listed in the evidence; unbounded string content is represented by the escape-unit alphabet",
